@@ -19,7 +19,18 @@ The history is executed on ONE object built from the spec.  Oracles (all on cano
     interaction) equals the first such look-up -- look-ups made inside a later read included -- and the first such look-up
     (when no transformation preceded it) equals what a FRESH object built from the same spec reports after one complete read;
   * deep snapshots of every caller-owned input (X/Y, rows, interaction lists, lambda tables, files' bytes, Result
-    object, filter argument objects, logging learner) taken before and after the history are identical.
+    object, filter argument objects, logging learner) taken before and after the history are identical; on the fresh object the
+    snapshot is also taken between its complete read and the params look-up that follows, so that a change is attributed to the
+    read ('owned-modified') or to the look-up ('owned-modified-by-params-lookup');
+  * the first judged params look-up is compared with the fresh object's also when transformations preceded it (the environment
+    that materialize() / cache() / chunk() / pickling / save() hand back reports what the environment reports once it has been read);
+  * pickling an object that the caller has read (completely or part-way) succeeds whenever it succeeds for a twin built from the same
+    spec and taken through the same transformations without being read by the caller ('transform:PICKLE:raise:<T>'); a pickle.dumps
+    that fails on the twin as well is 'not applicable' as before.
+Logging policies (Logged, Environments.logged) are coba's own bandit learners -- which draw the action they play themselves and never
+use the seed given to Logged -- and caller-written learners that answer with a PMF (as a list, under the {'pmf': ..} hint, in front of
+a kwargs dict; fixed or learning), for which coba draws the action with a generator made from Logged's seed on every read; seeds include
+0 and 0.0; the params of a caller-written learner are a new dict per look-up or the learner's own dict (a caller-owned object).
 A violation is shrunk (filters / history steps removed while the same failure mode persists) so that the signature
 names the mechanism: failure mode, source kind, the minimal filter chain and the minimal history.
 
@@ -49,7 +60,9 @@ RULE  = ("seeded (pipeline, history) pairs: source kind x kind-tracked filter ch
          "look-up inside the read after j pulled interactions (j=0: before the first pull); one case = one history "
          "executed on one object; distinct & non-trivial = distinct (source kind, filter-name chain, history-op "
          "sequence, view) whose first read succeeds, with a non-empty chain or a partial read / transformation "
-         "in the history, and at least two interactions in the reference read.  Besides these (sources of at most 55 interactions) a fixed "
+         "in the history, and at least two interactions in the reference read.  Logged takes coba's bandit learners (40%) or a caller-written "
+         "learner answering with a PMF (list | {'pmf':..} | (pmf, kwargs); fixed | learning; params a fresh dict | its own dict) with seeds "
+         "{1.23, 1, 2, 7.5, 0, 0.0}.  Besides these (sources of at most 55 interactions) a fixed "
          "number of LARGE-N cases per shard: a source of 1500-5000 interactions (stored as a recipe: source kind, seed, n), a chain that holds "
          "one designated filter -- in turn every size-sensitive filter (Grounded, Cache, Chunk, Reservoir, Shuffle, Logged) with every "
          "transformation, then every other filter -- between 0-2 random filters whose size parameters are on the scale of n, and a history "
@@ -66,7 +79,9 @@ REQUIRED = ["oracle.full-reread", "oracle.full-reread.two-or-more-interactions",
             "oracle.after.PICKLE", "oracle.after.SAVE", "reach.shuffle-on-logged", "reach.cache-then-partial",
             "reach.source.sup-xy", "reach.source.lambda", "reach.source.sup-file", "reach.source.result",
             "reach.source.saved", "reach.source.syn", "reach.source.custom", "reach.source.sup-src",
-            "oracle.params-fresh", "oracle.params-during-read", "oracle.params.after-lookup-before-first-pull",
+            "oracle.params-fresh", "oracle.params-fresh.after-transformation", "oracle.params-during-read", "oracle.params.after-lookup-before-first-pull",
+            "oracle.snapshot.params-lookup", "oracle.pickle-after-reads", "oracle.pickle-after-abandoned-read", "reach.pickle-while-a-cache-is-part-filled",
+            "reach.logged.pmf-learner", "reach.logged.pmf-learner.seed-zero", "reach.logged.learner-hands-out-own-params-dict",
             "oracle.params.after-abandoned-read-only", "reach.nested-categorical.encoded", "reach.nested-categorical.encoded.after-partial",
             # large-N cases (reference read of at least LARGE_N interactions)
             "oracle.large-n.full-reread", "oracle.large-n.partial-prefix", "oracle.large-n.full-after-partial",
@@ -95,8 +110,16 @@ ASSUMPTIONS = [
     "params are compared only among look-ups made once the object 'has been read': after the first complete read or after an "
     "abandoned read that pulled at least one interaction (sources may learn n_actions while the first interaction is produced); "
     "look-ups before that, and look-ups inside the object's first read, are performed but not judged",
-    "the comparison of params with a fresh object's params (after one complete read) is made only while no transformation has been "
-    "applied to the subject, with the two objects' temporary directories normalised",
+    "the first judged params look-up of the subject is compared with a fresh object's params after one complete read, with the two "
+    "objects' temporary directories normalised -- also when materialize() / cache() / chunk() / pickling / save() preceded it: the statement "
+    "lists these among the events after which the environment 'reports the same params'",
+    "pickling: a pickle.dumps that raises after the caller's reads is a violation only when a twin built from the same spec and taken "
+    "through the same transformations, never read by the caller, can be pickled (the statement lists pickling among what may follow "
+    "complete and abandoned reads; whether an environment is picklable at all is not its business)",
+    "caller-owned objects are snapshot over the whole history (reads, params look-ups, transformations -- the histories of the quantifier); "
+    "a change made by a params look-up rather than by a read is reported under its own failure mode (owned-modified-by-params-lookup)",
+    "logging policies written by the caller are deterministic functions of what predict / learn were given (a policy with its own unseeded "
+    "randomness is outside the domain like seed=None)",
     "nested categoricals keep the same layout in every row of a column / key (coba locates categoricals by looking at the first row)",
     "large-N cases have 1500-5000 interactions and 2-4 actions: state that only overflows beyond that (a bound above ~5000 items, or above "
     "~4400-20000 reward / feedback evaluations between two reads of the same interaction) is not reached",
@@ -610,6 +633,26 @@ def gen_src_saved(rng, n=None):
 # =================================================================================================== generators: filters
 SEQ_LEVEL = ["Take", "Slice", "Shuffle", "Reservoir", "Riffle", "Cache", "Chunk", "Params", "Identity"]
 
+# Logging policies for Logged / Environments.logged.  coba's own bandit learners draw the action they play with their OWN seeded
+# generator and answer (action, probability): the seed given to logged(..., seed=) is then never used.  A caller-written learner
+# in coba's classic interface answers with a PMF over the offered actions (as a list, under the {'pmf': ..} hint, or in front of
+# a kwargs dict that learn() gets back) and coba draws the action with the generator of the evaluator that Logged.filter builds
+# from `seed` on every read.  "pmf:<form>:<policy>:<params>":
+#   form   = list | hint | kwargs      how the prediction is written
+#   policy = fixed | learns            position weights only | epsilon-greedy over what learn() has seen so far (stateful)
+#   params = fresh | own               params builds a new dict with 'family' on every look-up | hands out the learner's own dict
+#                                      (which has no 'family' entry) -- that dict belongs to the caller
+BUILTIN_LEARNERS = ["random", "epsilon", "ucb"]
+LOG_SEEDS = [1.23, 1, 2, 7.5, 0, 0, 0.0]
+def gen_learner(rng):
+    if rng.random() < .4: return rng.choice(BUILTIN_LEARNERS)
+    return "pmf:%s:%s:%s" % (rng.choice(["list", "list", "hint", "kwargs"]), rng.choice(["fixed", "learns"]), rng.choice(["fresh", "fresh", "own"]))
+PLAIN_PMF_LEARNER = "pmf:list:fixed:fresh"
+def learner_label(name):
+    """what the signature says about a logging policy: nothing for coba's own learners"""
+    if not name.startswith("pmf:"): return ""
+    return "(pmf-learner" + (",own-params-dict" if name.endswith(":own") else "") + ")"
+
 def gen_filter(rng, st, force=None):
     """picks one applicable filter for the tracked kind `st`, updates `st` in place, returns its spec (or None).
     force: this filter or nothing (None when it is not applicable to the tracked kind).
@@ -642,7 +685,7 @@ def gen_filter(rng, st, force=None):
         N = big
         if name == "Take":        a = {"n": rng.choice([N, N-1, N+5, N//2 + 700, 4097, 1400]), "strict": rng.random() < .1}
         elif name == "Slice":     a = {"start": rng.choice([None, 0, 1, 7]), "stop": rng.choice([None, None, N-3, N//2 + 700]), "step": rng.choice([1, 1, 1, 2])}
-        elif name == "Reservoir": a = {"n": rng.choice([None, N, N-1, N//2 + 700, 1400, 4097]), "seed": rng.choice([1, 2, 5, 0.5]), "strict": rng.random() < .1}
+        elif name == "Reservoir": a = {"n": rng.choice([None, N, N-1, N//2 + 700, 1400, 4097]), "seed": rng.choice([1, 2, 5, 0.5, 0]), "strict": rng.random() < .1}
         elif name == "Cache":     a = {"n_slice": rng.choice([25, 1, 2, 7, 1000, 4096])} if rng.random() < .5 else {}
         elif name == "Where":
             a = {"n_interactions": rng.choice([None, T(1000, None), T(1, None), T(None, 100000), T(1000, 100000)]),
@@ -660,7 +703,7 @@ def gen_filter(rng, st, force=None):
     elif name == "Take":      a = {"n": rng.choice([0, 1, 2, 3, 5, 10, 25, 26, 100]), "strict": rng.random() < .2}
     elif name == "Slice":     a = {"start": rng.choice([None, 0, 1, 2, 5]), "stop": rng.choice([None, None, 3, 8, 30]), "step": rng.choice([1, 1, 2, 3])}
     elif name == "Shuffle":   a = {"seed": rng.choice([0, 1, 2, 3, 7, 11, 100])}
-    elif name == "Reservoir": a = {"n": rng.choice([None, 0, 1, 3, 5, 12, 30]), "seed": rng.choice([1, 2, 5, 0.5]), "strict": rng.random() < .15}
+    elif name == "Reservoir": a = {"n": rng.choice([None, 0, 1, 3, 5, 12, 30]), "seed": rng.choice([1, 2, 5, 0.5, 0]), "strict": rng.random() < .15}
     elif name == "Riffle":    a = {"spacing": rng.choice([1, 2, 3, 5]), "seed": rng.randint(0, 9)}
     elif name == "Cache":     a = {"n_slice": rng.choice([25, 25, 1, 2, 7])} if rng.random() < .4 else {}
     elif name == "Params":    a = {"params": D([("tag", rng.choice(["t", 1, 2.5])), ("nested", [1, 2])])}
@@ -689,7 +732,7 @@ def gen_filter(rng, st, force=None):
     elif name == "Grounded":
         nu = rng.randint(1, 5); nw = rng.randint(2, 5)
         a = {"n_users": nu, "n_normal": rng.randint(0, nu), "n_words": nw, "n_good": rng.randint(1, nw-1), "seed": rng.randint(0, 9)}
-    elif name == "Logged":    a = {"learner": rng.choice(["random", "epsilon", "ucb"]), "seed": rng.choice([1.23, 1, 2, 7.5, 0])}
+    elif name == "Logged":    a = {"learner": gen_learner(rng), "seed": rng.choice(LOG_SEEDS)}
     elif name == "Cycle":     a = {"after": rng.choice([0, 1, 2, 5])}
     # ---- kind tracking
     if name == "Batch": st["batched"] = True
@@ -925,7 +968,7 @@ def gen_coll_case(rng, how, tr):
                     f = gen_filter(rng, st, force="Logged")
                     if f is not None:
                         pos = len(chain)
-                        args = {"learners": [rng.choice(["random", "epsilon", "ucb"]) for _ in range(M)], "seed": f["a"]["seed"]}
+                        args = {"learners": [gen_learner(rng) for _ in range(M)], "seed": f["a"]["seed"]}
                 else: pos = len(chain)
             if i < L:
                 f = gen_filter(rng, st)
@@ -1023,8 +1066,40 @@ def build_source(s, tmp, owned, tag="src"):
         return Environments.from_save(path)
     raise ValueError(k)
 
+class PmfLearner:
+    """a caller-written logging policy in coba's classic interface: predict() answers with a PMF over the offered actions and coba
+    draws the action that is played.  It works by position, so any kind of action will do; at least two entries of the PMF are
+    non-zero whenever two actions are offered, and no entry equals a value the generators use as an action.  Deterministic."""
+    WEIGHTS = {1: [1.0], 2: [.55, .45], 3: [.45, .35, .2], 4: [.35, .3, .2, .15]}
+    def __init__(self, form, policy, params):
+        self.form, self.policy, self.own = form, policy, params == "own"
+        self.p = {"form": form, "policy": policy, "eps": .3}           # the learner's own dict (no 'family')
+        self.sums = {}; self.cnts = {}; self.calls = 0
+    @property
+    def params(self):
+        return self.p if self.own else {"family": "PmfLearner", **self.p}
+    def _pmf(self, n):
+        if self.policy == "fixed" or not self.cnts:
+            w = self.WEIGHTS.get(n)
+            return list(w) if w else [1 / n] * n
+        means = [self.sums.get(i, 0) / self.cnts[i] if self.cnts.get(i) else 0 for i in range(n)]
+        best = means.index(max(means))
+        return [self.p["eps"] / n + ((1 - self.p["eps"]) if i == best else 0) for i in range(n)]
+    def predict(self, context, actions):
+        self.calls += 1
+        pmf = self._pmf(len(actions))
+        self._last = list(actions)
+        if self.form == "hint":   return {"pmf": pmf}
+        if self.form == "kwargs": return pmf, {"call": self.calls}
+        return pmf
+    def learn(self, context, action, reward, probability, **kwargs):
+        try: i = [a is action or a == action for a in self._last].index(True)
+        except Exception: return
+        self.sums[i] = self.sums.get(i, 0) + reward; self.cnts[i] = self.cnts.get(i, 0) + 1
+
 def make_learner(name):
     from coba.learners import RandomLearner, BanditEpsilonLearner, BanditUCBLearner
+    if name.startswith("pmf:"): return PmfLearner(*name.split(":")[1:])
     return {"random": lambda: RandomLearner(), "epsilon": lambda: BanditEpsilonLearner(0.2, seed=3), "ucb": lambda: BanditUCBLearner()}[name]()
 
 def make_filter(f, owned, tag):
@@ -1223,6 +1298,22 @@ def _transform(env, op, view, tmp, counter, coll=None, via=None):
         except CobaException as e: raise Invalid(f"save:CobaException")
     raise ValueError(op)
 
+def _twin_pickles(spec, tmp, done):
+    """can an object built from `spec` and taken through the transformations `done` -- but never read by the caller -- be pickled?
+    (False as well when the twin cannot be built or transformed)"""
+    try:
+        os.makedirs(tmp)
+        twin = build(spec, tmp); env, coll = twin.env, twin.coll
+        counter = itertools.count()
+        for kind, via in done:
+            new = _transform(env, kind, spec["view"], tmp, counter, coll, via)
+            if coll is not None: coll = new; new = coll[spec["coll"]["at"]]
+            env = new
+        pickle.dumps(env if coll is None else coll)
+        return True
+    except Exception:
+        return False
+
 def run_history(spec, ctx=None):
     """-> (status, violations) ; status in {'ok','invalid'}; violations = [(mode, what)]"""
     from coba.context import CobaContext, NullLogger
@@ -1241,6 +1332,7 @@ def run_history(spec, ctx=None):
         except Exception as e:
             # not even a fresh object can be read: the chain is not type-compatible with the source (out of the domain)
             return "invalid", [(f"first-read-raises.{type(e).__name__}", f"{type(e).__name__}: {e}")]
+        fsnap_read = snapshot_owned(fresh.owned)          # after one complete read, before any params look-up
         fresh_params, e = _lookup(fresh.env)              # what an identical object reports after one complete read
         if e is None: fresh_params = _subst(fresh_params, os.path.join(tmp, "fresh"), "$TMP")
         fsnap1 = snapshot_owned(fresh.owned)
@@ -1261,6 +1353,7 @@ def run_history(spec, ctx=None):
                 p, e = _lookup(E[j])
                 params[j] = None if e is not None else _subst(p, tmpdir, "$TMP")
             return reads, params
+        fsnap_params = fsnap1                              # after the read and the params look-up, before the other members are read
         if cspec:
             others, others_params = sweep(fresh.coll, os.path.join(tmp, "fresh"))
             bad = [r for r in others.values() if isinstance(r, _Raised)]
@@ -1272,10 +1365,20 @@ def run_history(spec, ctx=None):
         def moved_to(got, table):
             """the other member whose reference equals `got` (None: none)"""
             return next((j for j, r in table.items() if r is not None and not isinstance(r, _Raised) and r == got), None)
-        note("oracle.snapshot", len(fsnap0))
+        note("oracle.snapshot", len(fsnap0)); note("oracle.snapshot.params-lookup", len(fsnap0))
+        reported_owned = set()
         for name in fsnap0:
-            if fsnap0[name] != fsnap1.get(name):
+            if fsnap0[name] != fsnap_read.get(name):
+                reported_owned.add(name)
                 viol.append((f"owned-modified:{name.split('.', 1)[-1]}", f"one full read of a fresh object changed the caller-owned {name}"))
+            elif fsnap_read[name] != fsnap_params.get(name):
+                # the read left it alone: it was the params look-up that followed
+                reported_owned.add(name)
+                viol.append((f"owned-modified-by-params-lookup:{name.split('.', 1)[-1]}", f"one full read of a fresh object left the caller-owned {name} as it was; "
+                             "the params look-up that followed changed it"))
+            elif fsnap_params[name] != fsnap1.get(name):
+                reported_owned.add(name)
+                viol.append((f"owned-modified:{name.split('.', 1)[-1]}", f"reading the other members of a fresh collection (and looking up their params) changed the caller-owned {name}"))
         # ---------------- the subject
         os.makedirs(os.path.join(tmp, "subj"))
         try: sub = build(spec, os.path.join(tmp, "subj"))
@@ -1301,6 +1404,8 @@ def run_history(spec, ctx=None):
         any_full = False
         has_read = False           # a complete read, or an abandoned read that pulled at least one interaction, has happened
         transformed = False; n_reads = 0; early_lookup = False; applied = []
+        done = []                  # the transformations applied so far, as (kind, via)
+        pulled_partial = False     # an abandoned read that pulled at least one interaction has happened
         def judge(p, exc, after, inside=False):
             """a params look-up made once the object has been read; -> True when a violation was recorded"""
             nonlocal first_params
@@ -1316,11 +1421,17 @@ def run_history(spec, ctx=None):
                 return f"keys {ks}: {[(a.get(k), b.get(k)) for k in ks][:3]}"
             if first_params is None:
                 first_params = p
-                if not transformed and fresh_params is not None:
+                if fresh_params is not None:
                     note("oracle.params-fresh")
+                    if transformed: note("oracle.params-fresh.after-transformation")
                     q = _subst(p, os.path.join(tmp, "subj"), "$TMP")
                     if q != fresh_params:
-                        viol.append(("params:differ-from-fresh", f"{where} after [{after}] differ from what an identical object reports after one complete read in {keys_of(fresh_params, q)}")); return True
+                        # entries that the fresh object reports after its read and the subject does not report at all (everything it
+                        # does report agrees): the failure mode names them (names of params, never values)
+                        fa, fb = (dict(t) if isinstance(t, tuple) and all(isinstance(u, tuple) and len(u) == 2 for u in t) else None for t in (fresh_params, q))
+                        lacks = sorted(k for k in fa if k not in fb) if fa is not None and fb is not None and all(fa.get(k) == v for k, v in fb.items()) else []
+                        mode = "params:differ-from-fresh" + (":lacks=" + ",".join(lacks) if lacks else "")
+                        viol.append((mode, f"{where} after [{after}] differ from what an identical object reports after one complete read in {keys_of(fresh_params, q)}")); return True
             elif p != first_params:
                 j = moved_to(_subst(p, os.path.join(tmp, "subj"), "$TMP"), others_params) if cspec else None
                 if j is not None:
@@ -1391,7 +1502,7 @@ def run_history(spec, ctx=None):
                 if got != ref[:k]:
                     d = diff_reads(got, ref[:k])
                     viol.append((f"partial:{d[0]}", f"the first {k} interactions read after [{after}] are not the prefix of the sequence: {d[1]}")); break
-                if got: has_read = True
+                if got: has_read = True; pulled_partial = True
                 since.append("PARTIAL")
             elif kind == "PARAMS":
                 p, exc = _lookup(env)
@@ -1400,9 +1511,19 @@ def run_history(spec, ctx=None):
                     if judge(p, exc, ">".join(since) or "FULL"): break
                 since.append("PARAMS")
             else:
+                via = op[1] if len(op) > 1 else None
+                if kind == "PICKLE" and n_reads:
+                    # the object has been read (completely or part-way): pickling it must be possible whenever it is for an object
+                    # that went through the same transformations without having been read by the caller
+                    note("oracle.pickle-after-reads")
+                    if pulled_partial: note("oracle.pickle-after-abandoned-read")
                 try:
-                    new = _transform(env, kind, view, os.path.join(tmp, "subj"), counter, coll, op[1] if len(op) > 1 else None)
+                    new = _transform(env, kind, view, os.path.join(tmp, "subj"), counter, coll, via)
                 except Invalid as e:
+                    if kind == "PICKLE" and n_reads and _twin_pickles(spec, os.path.join(tmp, f"twin{n_op}"), done):
+                        t = str(e).split(":")[-1]
+                        viol.append((f"transform:PICKLE:raise:{t}", f"an object built from the same spec and taken through [{'>'.join(k for k, _ in done) or 'nothing'}] without being read "
+                                     f"by the caller can be pickled; after the caller's reads ([{'>'.join(since) or 'FULL'}] since the last complete read) pickle.dumps raises {t}")); break
                     note(f"skip.transform.{kind}.{e}"); continue
                 except Exception as e:
                     viol.append((f"transform:{kind}:raise:{type(e).__name__}", f"{kind} after [{'>'.join(since) or 'nothing'}] raises {type(e).__name__}: {e}")); break
@@ -1411,7 +1532,7 @@ def run_history(spec, ctx=None):
                     if len(new) != M:
                         viol.append(("collection:length", f"{kind} of a collection of {M} environments gives a collection of {len(new)}")); break
                     coll = new; new = coll[at]; applied.append(kind)
-                env = new; since.append(kind); transformed = True
+                env = new; since.append(kind); transformed = True; done.append((kind, via))
         # ---------------- collection cases: the other members after the history
         if cspec and not viol:
             many = ".many" if M > COLL_MANY else ""
@@ -1446,7 +1567,7 @@ def run_history(spec, ctx=None):
         snap1 = snapshot_owned(sub.owned)
         note("oracle.snapshot", len(snap0))
         for name in snap0:
-            if snap0[name] != snap1.get(name):
+            if snap0[name] != snap1.get(name) and name not in reported_owned:
                 viol.append((f"owned-modified:{name.split('.', 1)[-1]}", f"the history changed the caller-owned {name}"))
         return "ok", viol
     finally:
@@ -1524,7 +1645,7 @@ def shrink(spec, kind, allow_s=None):
     if cur.get("coll"): minimise_collection(final=False)
     if _is_big(cur):
         N = cur["source"]["n"]
-        for m in (40, N//8, N//4, N//2):
+        for m in (40, 30, 55, 24, N//8, N//4, N//2):          # several ordinary sizes: the recipe draws another source for every n
             cand = dict(cur, source=dict(cur["source"], n=m))
             if still(cand): cur = cand; break
         if _is_big(cur):
@@ -1549,6 +1670,12 @@ def shrink(spec, kind, allow_s=None):
                 cand = dict(cur, chain=cur["chain"][:i] + cur["chain"][i+1:])
                 if still(cand): cur = cand
                 else: i += 1
+    if kind.startswith("params:") and (deadline is None or time.time() < deadline):
+        # params: the plainest history that can show it -- one transformation, one complete read, one look-up (a look-up made inside
+        # a read cannot be taken out of it step by step: without it nothing is judged)
+        for t in [o for o in cur["history"] if o[0] in TRANSFORMS]:
+            cand = dict(cur, history=[t, ["FULL"], ["PARAMS"]])
+            if cand["history"] != cur["history"] and still(cand): cur = cand; break
     changed = True
     while changed and (deadline is None or time.time() < deadline):
         changed = False
@@ -1565,11 +1692,29 @@ def shrink(spec, kind, allow_s=None):
             cand = without_filter(cur, i)
             if still(cand): cur = cand; changed = True; break
         if changed: continue
+        # a caller-written logging policy: is it part of the mechanism?  (coba's RandomLearner, else the plainest PMF learner)
+        for i, f in enumerate(cur["chain"]):
+            if f["f"] == "Logged" and f["a"]["learner"].startswith("pmf:") and f["a"]["learner"] != PLAIN_PMF_LEARNER:
+                for plain in ("random", PLAIN_PMF_LEARNER):
+                    cand = dict(cur, chain=cur["chain"][:i] + [{"f": "Logged", "a": dict(f["a"], learner=plain)}] + cur["chain"][i+1:])
+                    if still(cand): cur = cand; changed = True; break
+                if changed: break
+        if changed: continue
+        ls = ((cur.get("coll") or {}).get("args") or {}).get("learners")
+        if ls and any(l.startswith("pmf:") and l != PLAIN_PMF_LEARNER for l in ls):
+            for plain in ("random", PLAIN_PMF_LEARNER):
+                cand = dict(cur, coll=dict(cur["coll"], args=dict(cur["coll"]["args"], learners=[plain if l.startswith("pmf:") else l for l in ls])))
+                if still(cand): cur = cand; changed = True; break
+        if changed: continue
         if cur["view"] == "final" and not cur.get("coll") and not any(o[0] in ("MATERIALIZE", "SAVE") for o in cur["history"]):
             cand = dict(cur, view="raw")
             if still(cand): cur = cand; changed = True
     if cur.get("coll"):
         minimise_collection(final=True)
+    elif kind.startswith("transform:PICKLE:") and not cur["chain"] and not _is_big(cur) and (deadline is None or time.time() < deadline):
+        # an object that can no longer be pickled once it has been read, with no filter left: does the source matter?
+        cand = dict(cur, source=dict(PLAIN_SOURCE))
+        if still(cand): cur = cand
     return cur
 
 PLAIN_SOURCE = {"kind": "syn", "which": "bandit", "n": 6, "n_actions": 3, "ncf": 0, "naf": 0, "seed": 1, "plain": True}
@@ -1581,7 +1726,7 @@ def _src_label(s):
 def signature(spec, kind):
     """mechanism-level: failure kind / the minimal filter chain (or, when no filter is needed, the source kind) /
     what has to precede the failing read"""
-    names = [f["f"] for f in spec["chain"]]
+    names = [f["f"] + (learner_label(f["a"]["learner"]) if f["f"] == "Logged" else "") for f in spec["chain"]]
     names = [n for i, n in enumerate(names) if i == 0 or names[i-1] != n]
     where = ("chain=" + ">".join(names)) if names else ("src=" + _src_label(spec["source"]))
     ops = [o[0] for o in spec["history"]]
@@ -1597,7 +1742,9 @@ def signature(spec, kind):
     if c:
         # the failure did not survive on a single environment (or was never tried there); '>ten': nor on the small collections tried;
         # the way the collection is made is named when the failure did not survive with the plainest one (or was never tried there)
-        after += "+collection" + (">ten" if c["m"] > COLL_MANY else "") + (f"[{c['how']}]" if c["how"] != "params-tags" else "")
+        ls = (c.get("args") or {}).get("learners") or []
+        lab = max((learner_label(l) for l in ls), key=len, default="")          # the most specific label among the members' policies
+        after += "+collection" + (">ten" if c["m"] > COLL_MANY else "") + (f"[{c['how']}{lab}]" if c["how"] != "params-tags" else "")
     return f"{kind}/{where}/{after}"
 
 def _rereads_shared_objects(names, hist):
@@ -1640,6 +1787,18 @@ def check_case(spec, ctx=None, do_shrink=True):
             if "Shuffle" in names and ("Logged" in names[:names.index("Shuffle")] or spec["source"]["kind"] in ("result",) or
                                        any("action" in i for i in spec["source"].get("interactions", [])[:1])): ctx.count("reach.shuffle-on-logged")
             if ("Cache" in names or "CACHE" in hist or "CHUNK" in hist) and "PARTIAL" in hist: ctx.count("reach.cache-then-partial")
+            H = spec["history"]
+            if any(o[0] == "PARTIAL" and o[1] >= 1 and ("Cache" in names or {"CACHE", "CHUNK"} & set(hist[:i])) and
+                   any(h == "PICKLE" and "FULL" not in hist[i+1:j] for j, h in enumerate(hist) if j > i) for i, o in enumerate(H)):
+                ctx.count("reach.pickle-while-a-cache-is-part-filled")
+            # logging policies: (learner, seed) of every Logged of the chain and of a collection made by logged([learners])
+            logs = [(f["a"]["learner"], f["a"]["seed"]) for f in spec["chain"] if f["f"] == "Logged"]
+            if c and c["how"] == "logged-learners": logs += [(l, c["args"]["seed"]) for l in c["args"]["learners"][c["at"]:c["at"]+1]]
+            for l, sd in logs:
+                if l.startswith("pmf:"):
+                    ctx.count("reach.logged.pmf-learner")
+                    if not sd: ctx.count("reach.logged.pmf-learner.seed-zero")
+                    if l.endswith(":own"): ctx.count("reach.logged.learner-hands-out-own-params-dict")
             if ctx.extra.get("_n_ref", 0) >= LARGE_N:
                 ctx.count("reach.large-n")
                 ctx.count(f"reach.large-n.source.{_src_label(spec['source']).split('(')[0]}")
@@ -1659,6 +1818,11 @@ def check_case(spec, ctx=None, do_shrink=True):
         kind = kind_of(mode)
         if kind in seen: continue
         seen.add(kind)
+        if kind == "params:differ-from-fresh:lacks=n_actions" and resolve_source(spec["source"])["kind"].startswith("sup-") and "SAVE" in hist:
+            # one mechanism, one signature (an open finding has to be listed under a stable name): a supervised environment learns
+            # n_actions while it is read; save() of one that has not been read yet stores the params it had before.  Neither the
+            # kind of supervised source nor the filters nor the rest of the history are part of it, so nothing is shrunk.
+            out.append((f"{kind}/src=supervised/after-SAVE", what, spec)); continue
         if do_shrink:
             budget_ok = True
             if ctx is not None:
